@@ -292,7 +292,18 @@ def eval_any(case, rng):
                 extra.append(o)
     legacy = rng.random() < 0.15
     multi = None
-    if legacy:
+    if case["i"] % 40 == 39:
+        # a capture without packets and without an interface description (a section needs one only for its packet blocks): a bare section header, or a section
+        # that holds nothing but secrets / name-resolution blocks (editcap --inject-secrets on an empty file, a capture stopped before the first packet)
+        import struct
+        e_ = rng.choice("<>")
+        parts = [ns._block(0x0A0D0D0A, struct.pack(e_ + "IHHq", 0x1A2B3C4D, 1, 0, -1), e_)]
+        if rng.random() < 0.6:
+            parts.append(ns._block(10, struct.pack(e_ + "II", 0x544C534B, len(keys)) + keys + b"\x00" * ((-len(keys)) % 4), e_))
+        if rng.random() < 0.4:
+            parts.append(ns._block(4, struct.pack(e_ + "HH", 0, 0), e_))
+        cap, items, flows, noise, nfl, multi, legacy = b"".join(parts), [], [], [], 0, "no-interface", False
+    elif legacy:
         cap = ns.pcap_legacy([("pkt", it.ts, it.frame) for it in items], le=rng.random() < 0.5)
     elif rng.random() < 0.15:
         # a capture of several interfaces: an idle one of another link type (raw IP, Linux cooked, BSD null) described first, or two Ethernet interfaces with their own clocks
